@@ -191,6 +191,7 @@ static void vf_check_heap(struct cstl_heap * h, const struct vf_model * m)
         VF_ASSERT(node[k] != NULL, "heap: complete tree: every level-order position below size is occupied");
         id[k] = vf_id_of_node(node[k]);
         VF_ASSERT(id[k] >= 0 && m->in[id[k]], "heap: every node of the tree is an element that was pushed and not yet popped");
+        if (id[k] < 0) return;          /* already reported; the remaining checks need a pool element */
         VF_ASSERT(!seen[id[k]], "heap: no element occurs twice in the tree");
         seen[id[k]] = 1;
         VF_ASSERT(node[k]->p == par, "heap: the parent link points back at the parent (NULL at the root)");
